@@ -203,3 +203,41 @@ func (c *Ctx) isNonNilErrorValue(v ssa.Value) bool {
 	}
 	return false
 }
+
+// lessThanFact normalises a branch fact into "x < y holds" / "x <= y holds": it
+// returns the operands with strict reporting whether the inequality is strict.
+// Recognised: x<y, y>x, !(x>=y), !(y<=x) (strict) and x<=y, y>=x, !(x>y), !(y<x).
+func lessThanFact(ft ir.Fact) (x, y ssa.Value, strict bool, ok bool) {
+	b, isB := ft.Cond.(*ssa.BinOp)
+	if !isB {
+		return nil, nil, false, false
+	}
+	x, y = b.X, b.Y
+	op := b.Op
+	if !ft.Truth {
+		// !(x op y)  ==  x op' y
+		switch op {
+		case token.LSS:
+			op = token.GEQ
+		case token.LEQ:
+			op = token.GTR
+		case token.GTR:
+			op = token.LEQ
+		case token.GEQ:
+			op = token.LSS
+		default:
+			return nil, nil, false, false
+		}
+	}
+	switch op {
+	case token.LSS:
+		return x, y, true, true
+	case token.LEQ:
+		return x, y, false, true
+	case token.GTR:
+		return y, x, true, true
+	case token.GEQ:
+		return y, x, false, true
+	}
+	return nil, nil, false, false
+}
